@@ -3,6 +3,7 @@ import HpxVerif.Lemmas.BmocEnc
 import HpxVerif.Lemmas.BmocNot
 import HpxVerif.Lemmas.BmocXor3
 import HpxVerif.Lemmas.BmocOr2
+import HpxVerif.Lemmas.BmocLaws
 
 set_option autoImplicit false   -- an unknown identifier in a statement is an error, never a new variable
 
@@ -117,5 +118,28 @@ theorem or_bmoc (A B : BMOC) (hA : A.dmax ≤ 29) (hB : B.dmax ≤ 29)
 /-- the documented table of `or` -/
 theorem or_table : Tri.max .abs .full = .full ∧ Tri.max .part .abs = .part ∧ Tri.max .full .part = .full ∧
     Tri.max .abs .abs = .abs ∧ Tri.max .part .part = .part ∧ Tri.max .part .full = .full := by decide
+
+/-! ## cross-operator laws (Kleene's de Morgan laws hold with partial flags) -/
+
+/-- **de Morgan 1**: `(not a) or (not b)` never panics and denotes the same three-valued set as `not (a and b)` -/
+theorem de_morgan_or_not (D : Nat) (hD : D ≤ 29) (a b : List Cell) (ha : WF D a) (hb : WF D b)
+    (hra : ∀ c ∈ a, InR c) (hrb : ∀ c ∈ b, InR c) :
+    ∃ l, orCellsUnpacked (notCells a) (notCells b) = some l ∧
+      ∀ x, x < 12 * 4 ^ D → stOf D l x = stOf D (notCells (andCells a b)) x :=
+  Hpx.Bmoc.de_morgan_or_not D hD a b ha hb hra hrb
+
+/-- **de Morgan 2**: `(not a) and (not b)` denotes the same three-valued set as the complement of `a or b` -/
+theorem de_morgan_and_not (D : Nat) (hD : D ≤ 29) (a b : List Cell) (ha : WF D a) (hb : WF D b)
+    (hra : ∀ c ∈ a, InR c) (hrb : ∀ c ∈ b, InR c) (l : List Cell) (hl : orCellsUnpacked a b = some l)
+    (x : Nat) (hx : x < 12 * 4 ^ D) :
+    stOf D (andCells (notCells a) (notCells b)) x = stOf D (notCells l) x :=
+  Hpx.Bmoc.de_morgan_and_not D hD a b ha hb hra hrb l hl x hx
+
+/-- the hypotheses are met by two BMOCs with partial flags: `{0/0 p, 1/5 F}` and `{1/0 F, 1/4 p}` at depth 1 -/
+example : WF 1 [⟨0, 0, false⟩, ⟨1, 5, true⟩] ∧ WF 1 [⟨1, 0, true⟩, ⟨1, 4, false⟩] ∧
+    (∀ c ∈ [(⟨0, 0, false⟩ : Cell), ⟨1, 5, true⟩], InR c) ∧ (∀ c ∈ [(⟨1, 0, true⟩ : Cell), ⟨1, 4, false⟩], InR c) := by
+  refine ⟨by simp [WF, lo, hi], by simp [WF, lo, hi], ?_, ?_⟩ <;>
+  · intro c hc; simp only [List.mem_cons, List.not_mem_nil, or_false] at hc
+    rcases hc with rfl | rfl <;> simp [InR]
 
 end Hpx.C08
